@@ -94,9 +94,42 @@ def gen_cases(tier, seed):
         ops.append(["drain"])
         ops.append(["poll", 2])
         yield {"id": i, "pack": pack, "nlab": nlab, "ops": ops}
+    if tier == "thorough":
+        yield from gen_exhaustive()
+
+
+def gen_exhaustive(block=600):
+    """Small-scope exhaustive layer: every history of 1-5 operations from {add, stop,
+    not-inferrable} x 2 labels, next, do_level - over four pack shapes; each history is
+    followed by a full drain (so the completeness clause is evaluated)."""
+    import itertools
+
+    alphabet = [["add", 0], ["add", 1], ["stop", 0], ["stop", 1], ["noinf", 0], ["noinf", 1],
+                ["next", 1], ["level"]]
+    packs = ({"inferral": 1, "initial": 1, "sets": [1]}, {"inferral": 1, "initial": 0, "sets": [2]},
+             {"inferral": 0, "initial": 2, "sets": [1, 1]}, {"inferral": 2, "initial": 1, "sets": []})
+    cur, k = [], 0
+    for n in range(1, 6):
+        for hist in itertools.product(alphabet, repeat=n):
+            cur.append([list(o) for o in hist])
+            if len(cur) == block:
+                for j, pack in enumerate(packs):
+                    yield {"id": f"x{k}.{j}", "kind": "exhaustive", "pack": pack, "histories": cur}
+                cur, k = [], k + 1
+    if cur:
+        for j, pack in enumerate(packs):
+            yield {"id": f"x{k}.{j}", "kind": "exhaustive", "pack": pack, "histories": cur}
 
 
 def run_case(case):
+    if case.get("kind") == "exhaustive":
+        nt = False
+        for j, hist in enumerate(case["histories"]):
+            r = run_case({"id": f"{case['id']}/{j}", "pack": case["pack"], "nlab": 2,
+                          "ops": hist + [["drain"], ["poll", 1]]})
+            nt = nt or r["nontrivial"]
+            base.ctx().count("c16.exhaustive_histories")
+        return {"nontrivial": nt, "fingerprint": fp(case["id"])}
     from comb_spec_searcher.class_queue import DefaultQueue
     from comb_spec_searcher.exception import NoMoreClassesToExpandError
     from comb_spec_searcher.strategies.strategy_pack import StrategyPack
